@@ -18,6 +18,7 @@
 #include <stdio.h>
 #include <stdlib.h>
 #include <string.h>
+#include <signal.h>
 
 /* Required by runtime/cli.c */
 int g_argc = 0;
@@ -136,6 +137,9 @@ static int run_standalone(const char *path) {
      * The cop is launched lazily on first extern call, not here. */
     if (g_isolate_ffi) {
         vm.isolate_ffi = true;
+        /* A co-process that closed its input must surface as a failed write
+         * (EPIPE) on the request pipe, not as SIGPIPE killing the VM. */
+        signal(SIGPIPE, SIG_IGN);
     }
 
     VmResult result = vm_execute(&vm);
